@@ -49,7 +49,7 @@ MCSpec == MCInit /\ [][MCNext]_mvars
 
 \* deliberately false (vacuity guards)
 X_CacheNeverDropped == phase = "between" /\ height > 0 => cache # <<>>
-X_RevokeAlwaysPossible == \A n \in Range(alist) : IsLinked(ent[n])
+X_RevokeAlwaysPossible == \A n \in Rng(alist) : IsLinked(ent[n])
 X_ParamIsLimit == mbp # 0 => Limit = mbp
 X_TransferNeverMatters == phase = "between" /\ cache # <<>> => cache[1].sat # <<>>
 ====
